@@ -6,11 +6,13 @@
     future     C09_future_faithful, C09_result_faithful
     stop       C09_none_after_stop            (configuration flag singleCtl: one controlling thread)
     order      C09_fifo_single, C09_single_worker   (max_threads = 1)
-    liveness   C09_queued_has_server, C09_eventually_once, C09_eventually_begins   (singleCtl, max_threads ≥ 1)
-  Invariants: JRV/Lemmas/Pool*.lean and JRV/Lemmas/PoolC09*.lean.
+    liveness   C09_queued_has_server, C09_eventually_once, C09_eventually_begins   (singleCtl, max_threads ≥ 1,
+               and the explicit environment assumption `startMayFail = false`: `Thread.start()` never raises);
+               `C09_full_statement` is the reading over fair infinite runs, not proved.
+  Invariants: JRV/Lemmas/Pool*.lean and JRV/Lemmas/PoolC09*.lean.  Companion theorems of the extracted facts:
+  JRV/Properties/C09Gen.lean (this file does not import JRV.Generated).
 -/
 import JRV.Lemmas.PoolC09
-import JRV.Generated
 
 set_option linter.unusedSimpArgs false
 set_option linter.unusedVariables false
@@ -254,9 +256,11 @@ example : ∃ s s', run (init { max := 1, min := 0, qbound := 0 } 1) enqGrowRun 
     the queue and no thread about to attempt `__start_thread` (not inside `start()` from its `qsize` read on, not inside
     the growth branch of `enqueue`) ⇒ `nb_threads ≥ 1`, and some worker counted in `nb_threads` is inside the loop — it is
     not on an exit path, so it will come back to `queue.get`.  From the exact accounting `nb_pending_task = #queued +
-    #held`, the growth rule of `enqueue`, the spawn rule of `start` and the retirement rule `nb_threads > nb_pending_task`. -/
+    #held`, the growth rule of `enqueue`, the spawn rule of `start` and the retirement rule `nb_threads > nb_pending_task`.
+    `hnf` is the environment assumption that `Thread.start()` never raises: after a failed start (`cfg.startMayFail`) the
+    counters stay exact (`C10_counters_exact`) but the pool has, by the failure itself, fewer threads than it asked for. -/
 theorem C09_queued_has_server (cfg : Config) (n : Nat) (s : State) (hctl : cfg.singleCtl = true) (hmax : 1 ≤ cfg.max)
-    (hr : Reach (init cfg n) s) (hrun : s.stop = false) (t : Nat) (ht : Item.task t ∈ s.queue)
+    (hnf : cfg.startMayFail = false) (hr : Reach (init cfg n) s) (hrun : s.stop = false) (t : Nat) (ht : Item.task t ∈ s.queue)
     (hwin : ∀ c ∈ s.clients, inWindow c = false) :
     1 ≤ s.nbThreads ∧ ∃ (i : Nat) (w : Worker), s.workers[i]? = some w ∧ counted w = true ∧ serving w.pc = true := by
   have hLv := LiveInv_reach hctl hr
@@ -264,7 +268,7 @@ theorem C09_queued_has_server (cfg : Config) (n : Nat) (s : State) (hctl : cfg.s
   have hw0 : s.clients.countP inWindow = 0 := by
     rw [List.countP_eq_zero]; intro c hc; simp [hwin c hc]
   have hm : 1 ≤ s.cfg.max := by rw [reach_cfg hr]; exact hmax
-  have hth := hLv.grow hrun hm hq
+  have hth := hLv.grow (by rw [reach_cfg hr]; exact hnf) hrun hm hq
   rw [hw0] at hth
   refine ⟨hth, ?_⟩
   rw [hLv.base.count.threads] at hth
@@ -272,29 +276,40 @@ theorem C09_queued_has_server (cfg : Config) (n : Nat) (s : State) (hctl : cfg.s
   obtain ⟨i, hi⟩ := List.getElem?_of_mem hwm
   exact ⟨i, w, hi, hc, hLv.serv hrun i w hi hc⟩
 
-private theorem idle_notifyIf (b : Bool) (c : Client) (h : c.pc = .idle) : (notifyIf b c).pc = .idle := by
-  cases c with | mk pc ret => cases b <;> simp_all [notifyIf, notifyClient]
+/-- No client holds the pool lock or is about to attempt `__start_thread`: every client thread is outside the pool's
+    critical sections — idle, or anywhere inside `join()`, `join(t)`, `result(t)`, waiting for the lock at the
+    beginning of `enqueue` / `clear`, in the two first operations of `start()` / `stop()`. -/
+def clientsOutside (s : State) : Prop := ∀ c ∈ s.clients, cDepth c.pc = 0 ∧ inWindow c = false
+
+theorem clientsOutside_of_idle {s : State} (h : ∀ c ∈ s.clients, c.pc = .idle) : clientsOutside s := by
+  intro c hc; rw [inWindow, h c hc]; exact ⟨rfl, rfl⟩
+
+private theorem outside_notifyIf (b : Bool) (c : Client) (h : cDepth c.pc = 0 ∧ inWindow c = false) :
+    cDepth (notifyIf b c).pc = 0 ∧ inWindow (notifyIf b c) = false := by
+  simpa using h
 
 /-- **Every accepted task is eventually begun** — liveness stated as *no stuck state + decreasing variant* (single
-    controlling thread, `max_threads ≥ 1`).  In every reachable state with the flag clear, no client thread inside a call
-    (so no environment action is pending and `start()` has returned) and a task `t` that waits (queued, or taken by a worker
-    and not yet begun):
+    controlling thread, `max_threads ≥ 1`, thread creation never fails).  In every reachable state with the flag clear, no
+    client thread inside a critical section of the pool lock or about to spawn (`clientsOutside`: other client threads
+    may sit anywhere in `join()`, `join(t)`, `result(t)`, or wait for the lock at the start of an `enqueue`; `start()`
+    has returned) and a task `t` that waits (queued, or taken by a worker and not yet begun):
 
     1. *no stuck state*: some worker is inside a task body (only then does progress depend on the environment — the body
        has to end), or some worker action that is neither a time-out nor `task.end` is enabled;
     2. *variant and closure*: every worker step that is not a time-out strictly decreases `progressMeasure`
-       (`12·|queue| + Σ rank(pc)`), keeps the flag clear and the clients idle, and leaves `t` waiting — or running.
+       (`12·|queue| + Σ rank(pc)`), keeps the flag clear and the clients outside, and leaves `t` waiting — or running.
 
     Hence every maximal run of worker steps from such a state is finite and ends with `t` begun or with a worker inside a
-    task body; under weak fairness and terminating bodies every accepted task begins (`C09_eventually_begins` constructs
-    such a run).  With `C09_at_most_once`: exactly once. -/
+    task body (`C09_eventually_begins` constructs such a run).  With `C09_at_most_once`: exactly once.  What is *not*
+    covered: client steps interleaved with that run (`C09_full_statement`). -/
 theorem C09_eventually_once (cfg : Config) (n : Nat) (s : State) (hctl : cfg.singleCtl = true) (hmax : 1 ≤ cfg.max)
-    (hr : Reach (init cfg n) s) (hrun : s.stop = false) (hidle : ∀ c ∈ s.clients, c.pc = .idle)
+    (hnf : cfg.startMayFail = false)
+    (hr : Reach (init cfg n) s) (hrun : s.stop = false) (hout : clientsOutside s)
     (t : Nat) (tk : Task) (ht : s.tasks[t]? = some tk) (hwait : tk.phase = .queued ∨ tk.phase = .held) :
     ((∃ w ∈ s.workers, w.pc = .body) ∨
       ∃ (i : Nat) (op : Op) (s' : State), notTaskEnd op = true ∧ step? s ⟨.worker i, op, false⟩ = some s') ∧
     (∀ (i : Nat) (op : Op) (s' : State), step? s ⟨.worker i, op, false⟩ = some s' →
-      progressMeasure s' < progressMeasure s ∧ s'.stop = false ∧ (∀ c ∈ s'.clients, c.pc = .idle) ∧
+      progressMeasure s' < progressMeasure s ∧ s'.stop = false ∧ clientsOutside s' ∧
       ∃ tk', s'.tasks[t]? = some tk' ∧ (tk'.phase = .queued ∨ tk'.phase = .held ∨ tk'.phase = .running)) := by
   have hLv := LiveInv_reach hctl hr
   have hT := TaskInv_reach hr
@@ -309,8 +324,8 @@ theorem C09_eventually_once (cfg : Config) (n : Nat) (s : State) (hctl : cfg.sin
         have hlt := hLv.lock.ocl j hlo
         have hc : s.clients[j]? = some s.clients[j] := List.getElem?_eq_getElem hlt
         have hd := hLv.lock.cl j _ hc
-        rw [hidle _ (List.getElem_mem hlt)] at hd
-        simp [cDepth, hlo] at hd
+        rw [(hout _ (List.getElem_mem hlt)).1] at hd
+        simp [hlo] at hd
         rcases hLv.lock.pos with h | h
         · rw [hlo] at h; cases h
         · exact h hd.symm
@@ -328,8 +343,8 @@ theorem C09_eventually_once (cfg : Config) (n : Nat) (s : State) (hctl : cfg.sin
         · exact Or.inr ⟨i, op, s', h1, h2⟩
       rcases hwait with hq | hh
       · have hin := hT2.inq t tk ht hq
-        obtain ⟨_, i, w, hw, _, hserv⟩ := C09_queued_has_server cfg n s hctl hmax hr hrun t hin
-          (fun c hc => by simp [inWindow, hidle c hc])
+        obtain ⟨_, i, w, hw, _, hserv⟩ := C09_queued_has_server cfg n s hctl hmax hnf hr hrun t hin
+          (fun c hc => (hout c hc).2)
         exact fin i w hw hserv (fun _ => ⟨t, hin⟩)
       · obtain ⟨i, w, hw, _, hpc⟩ := hT2.own t tk ht (Or.inl hh)
         rw [hh] at hpc
@@ -348,7 +363,7 @@ theorem C09_eventually_once (cfg : Config) (n : Nat) (s : State) (hctl : cfg.sin
       · intro c hc
         rw [hcl] at hc
         obtain ⟨c0, h0, rfl⟩ := List.mem_map.mp hc
-        exact idle_notifyIf b c0 (hidle c0 h0)
+        exact outside_notifyIf b c0 (hout c0 h0)
       · have hph : phaseAt s t = some tk.phase := phaseAt_eq_some.mpr ⟨tk, ht, rfl⟩
         rcases worker_phase_step hw hT hstep t tk.phase hph with g | ⟨e, g⟩ | ⟨e, g⟩ | ⟨e, g⟩
         · obtain ⟨tk', h1, h2⟩ := phaseAt_eq_some.mp g
@@ -366,7 +381,8 @@ theorem C09_eventually_once (cfg : Config) (n : Nat) (s : State) (hctl : cfg.sin
     no time-out, no `task.end`, no client action — after which `t` is running (has begun) or some worker is inside a
     task body. -/
 theorem C09_eventually_begins (cfg : Config) (n : Nat) (s : State) (hctl : cfg.singleCtl = true) (hmax : 1 ≤ cfg.max)
-    (hr : Reach (init cfg n) s) (hrun : s.stop = false) (hidle : ∀ c ∈ s.clients, c.pc = .idle)
+    (hnf : cfg.startMayFail = false)
+    (hr : Reach (init cfg n) s) (hrun : s.stop = false) (hout : clientsOutside s)
     (t : Nat) (tk : Task) (ht : s.tasks[t]? = some tk) (hwait : tk.phase = .queued ∨ tk.phase = .held) :
     ∃ (as : List Action) (s' : State),
       (∀ a ∈ as, a.timeout = false ∧ notTaskEnd a.op = true ∧ ∃ i, a.who = .worker i) ∧ run s as = some s' ∧
@@ -374,10 +390,10 @@ theorem C09_eventually_begins (cfg : Config) (n : Nat) (s : State) (hctl : cfg.s
   generalize hm : progressMeasure s = m
   induction m using Nat.strongRecOn generalizing s tk with
   | ind m ih =>
-    obtain ⟨stuck, var⟩ := C09_eventually_once cfg n s hctl hmax hr hrun hidle t tk ht hwait
+    obtain ⟨stuck, var⟩ := C09_eventually_once cfg n s hctl hmax hnf hr hrun hout t tk ht hwait
     rcases stuck with hb | ⟨i, op, s1, hop, hs1⟩
     · exact ⟨[], s, by simp, rfl, Or.inr hb⟩
-    · obtain ⟨hlt, hstop1, hidle1, tk1, ht1, hph1⟩ := var i op s1 hs1
+    · obtain ⟨hlt, hstop1, hout1, tk1, ht1, hph1⟩ := var i op s1 hs1
       have hr1 : Reach (init cfg n) s1 := Reach.step _ hr hs1
       have hcons : ∀ (as : List Action),
           (∀ a ∈ as, a.timeout = false ∧ notTaskEnd a.op = true ∧ ∃ i, a.who = .worker i) →
@@ -388,7 +404,7 @@ theorem C09_eventually_begins (cfg : Config) (n : Nat) (s : State) (hctl : cfg.s
         · exact ⟨rfl, hop, i, rfl⟩
         · exact h a ha
       have hrec : tk1.phase = .queued ∨ tk1.phase = .held → _ := fun hw1 =>
-        ih (progressMeasure s1) (by omega) s1 hr1 hstop1 hidle1 tk1 ht1 hw1 rfl
+        ih (progressMeasure s1) (by omega) s1 hr1 hstop1 hout1 tk1 ht1 hw1 rfl
       rcases hph1 with h | h | h
       · obtain ⟨as, s', h1, h2, h3⟩ := hrec (Or.inl h)
         exact ⟨_ :: as, s', hcons as h1, by simp [run, hs1, h2], h3⟩
@@ -396,12 +412,64 @@ theorem C09_eventually_begins (cfg : Config) (n : Nat) (s : State) (hctl : cfg.s
         exact ⟨_ :: as, s', hcons as h1, by simp [run, hs1, h2], h3⟩
       · exact ⟨[⟨.worker i, op, false⟩], s1, hcons [] (by simp), by simp [run, hs1], Or.inl ⟨tk1, ht1, h⟩⟩
 
+/-- The beginning of an API call (the client program's choice), the end of a task body, and time-outs are the
+    environment's; every other operation is one the scheduler owes under fairness. -/
+def owedOp (op : Op) : Bool :=
+  match op with
+  | .callStart | .callStop | .callClear | .callJoin | .callJoinT | .callEnqueue | .callWait _ | .taskEnd _ => false
+  | _ => true
+
+/-- **Statement not proved — kept at full strength.**  On every infinite run of the pool (single controlling thread,
+    `max_threads ≥ 1`, no failing `Thread.start()`) that is strongly fair for every operation of every thread other than
+    call beginnings, `task.end` and time-outs, and in which every task body that begins also ends, a task accepted while
+    the flag is clear — the flag staying clear — eventually begins, *whatever the client threads do meanwhile*
+    (concurrent `enqueue`s holding the lock, `start()` still spawning, `join`/`result` calls).  Proved above: the
+    safety skeleton in every reachable state whose clients are outside the critical sections (`C09_queued_has_server`,
+    `C09_eventually_once`: no stuck state, and a variant that every worker step lowers; `C09_eventually_begins`: the finite
+    run of worker steps).  Missing: a *per-task* measure (items ahead of `t` in the queue + ranks of the workers that can
+    serve it + remaining steps of the critical sections in progress) that client steps do not increase, and the induction
+    over a fair run (the pool lock needs strong fairness: a worker waiting for it is enabled only intermittently). -/
+def C09_full_statement : Prop :=
+  ∀ (cfg : Config) (n : Nat) (σ : Nat → State) (α : Nat → Action),
+    cfg.singleCtl = true → 1 ≤ cfg.max → cfg.startMayFail = false →
+    σ 0 = init cfg n → (∀ i, step? (σ i) (α i) = some (σ (i + 1))) →
+    (∀ (who : Tid) (op : Op) (i : Nat), owedOp op = true →
+      (∀ j, i ≤ j → ∃ j', j ≤ j' ∧ (step? (σ j') ⟨who, op, false⟩).isSome = true) →
+      ∃ j, i ≤ j ∧ α j = ⟨who, op, false⟩) →
+    (∀ (i k : Nat) (w : Worker), (σ i).workers[k]? = some w → w.pc = .body →
+      ∃ j o, i ≤ j ∧ α j = ⟨.worker k, .taskEnd o, false⟩) →
+    ∀ (i t : Nat) (tk : Task), (σ i).tasks[t]? = some tk → (tk.phase = .queued ∨ tk.phase = .held) →
+      (∀ j, i ≤ j → (σ j).stop = false) →
+      ∃ j tk', i ≤ j ∧ (σ j).tasks[t]? = some tk' ∧ (tk'.phase = .running ∨ tk'.phase = .finished ∨ tk'.phase = .dropped)
+
 /-- Non-vacuity: a running pool (one idle worker at the loop head), a task enqueued, every client back to idle — the
     hypotheses of `C09_queued_has_server`, `C09_eventually_once` and `C09_eventually_begins` hold. -/
 example : ∃ s, run (init { max := 1, min := 1, qbound := 0 } 1) (startRun ++ enqRun) = some s ∧
-    s.cfg.singleCtl = true ∧ 1 ≤ s.cfg.max ∧ s.stop = false ∧ s.clients.map (·.pc) = [.idle] ∧
+    s.cfg.singleCtl = true ∧ 1 ≤ s.cfg.max ∧ s.cfg.startMayFail = false ∧ s.stop = false ∧ s.clients.map (·.pc) = [.idle] ∧
     s.queue = [.task 0] ∧ s.tasks.map (·.phase) = [.queued] ∧ s.workers.map (·.pc) = [.loopHead] := by
-  refine ⟨_, rfl, ?_, ?_, ?_, ?_, ?_, ?_, ?_⟩ <;> first | rfl | decide
+  refine ⟨_, rfl, ?_, ?_, ?_, ?_, ?_, ?_, ?_, ?_⟩ <;> first | rfl | decide
+
+/-- Non-vacuity of `clientsOutside` beyond idle clients: client 1 blocked in `join()` (`Queue.join` waits for the queued
+    task), client 2 inside `join(t)` waiting on the condition, client 3 at the first operation of an `enqueue` (waiting
+    for the pool lock) — the hypotheses still hold and task 0 waits. -/
+example : ∃ s, run (init { max := 1, min := 1, qbound := 0 } 4)
+      (startRun ++ enqRun ++ [⟨.client 1, .callJoin, false⟩, ⟨.client 2, .callJoinT, false⟩, ⟨.client 2, .condAcquire, false⟩,
+        ⟨.client 3, .callEnqueue, false⟩]) = some s ∧
+    s.stop = false ∧ s.clients.map (·.pc) = [.idle, .joinQ, .jtWait false, .enqAcq 1] ∧
+    s.clients.all (fun c => cDepth c.pc == 0 && !inWindow c) = true ∧ s.tasks.map (·.phase) = [.queued, .created] := by
+  refine ⟨_, rfl, ?_, ?_, ?_, ?_⟩ <;> first | rfl | decide
+
+/-- Why `startMayFail = false` is assumed: with a failing `Thread.start()` (environment) `start()` on a pool with
+    `min_threads = 1` leaves no worker, `nb_threads = 0` is exact, and a task enqueued afterwards on a pool whose
+    `enqueue`-triggered start fails too stays queued with nobody to serve it — no worker action is enabled. -/
+example : ∃ s, run (init { max := 1, min := 1, qbound := 0, startMayFail := true } 1)
+      ([c0 .callStart, c0 .eventIsSet, c0 .eventClear, c0 .queueQsize, c0 .lockAcquire, ⟨.client 0, .eventIsSet, true⟩,
+        c0 .lockRelease,
+        c0 .callEnqueue, c0 .lockAcquire, c0 .queuePut, c0 .lockAcquire, ⟨.client 0, .eventIsSet, true⟩, c0 .lockRelease,
+        c0 .lockRelease]) = some s ∧
+    s.stop = false ∧ s.clients.map (·.pc) = [.idle] ∧ s.queue = [.task 0] ∧ s.workers = [] ∧ s.nbThreads = 0 ∧
+    s.threads = [] ∧ s.nbPending = 1 := by
+  refine ⟨_, rfl, ?_, ?_, ?_, ?_, ?_, ?_, ?_⟩ <;> rfl
 
 /-- Why `C09_eventually_once` asks for idle clients: a direct `clear()` on a *running* pool, called while a worker has
     taken a task and not yet entered its accounting section, reaches a state in which nothing can move — `clear()` holds
@@ -413,10 +481,5 @@ example : ∃ s, run (init { max := 1, min := 1, qbound := 0 } 1)
     s.lockOwner = some (.client 0) ∧
     step? s ⟨.client 0, .queueJoin, false⟩ = none ∧ step? s ⟨.worker 0, .lockAcquire, false⟩ = none := by
   refine ⟨_, rfl, ?_, ?_, ?_, ?_, ?_, ?_⟩ <;> rfl
-
-theorem C09_gen_poolUnlockedAccesses : Generated.poolUnlockedAccesses = some unlockedAccessesSpec := by decide
-theorem C09_gen_poolPendingStores : Generated.poolPendingStores = some pendingStoresSpec := by decide
-theorem C09_gen_poolGrowthRule : Generated.poolGrowthRule = some growthRuleSpec := by decide
-theorem C09_gen_poolRetireRule : Generated.poolRetireRule = some retireRuleSpec := by decide
 
 end JRV.Props
